@@ -126,4 +126,20 @@ theorem trunc_bounds (q : Rat) :
     have := Rat.intCast_lt_intCast.mp this
     omega
 
+/-- the model's own rounding (half away from zero; truncation for 8 bytes) is within the stated tolerance -/
+theorem front_within (w : Nat) (q : Rat) : absQ ((frontQ w q : Rat) - q) ≤ tolQ w := by
+  unfold frontQ tolQ absQ
+  by_cases h8 : w = 8
+  · simp only [h8, if_true]
+    have hb := trunc_bounds q
+    by_cases hq : 0 ≤ q
+    · obtain ⟨a, b, _⟩ := hb.1 hq
+      split <;> grind
+    · obtain ⟨a, b, _⟩ := hb.2 (by grind)
+      split <;> grind
+  · simp only [h8, if_false]
+    have hb := round_bounds q
+    split <;> grind
+
+
 end N2k.Scaled
